@@ -71,6 +71,82 @@ def register(gen, T):
             raise ExtractError(f"{what}: NameMap::build(module, RESERVED_NAMES, <bool>) not found")
         return m.group(1)
 
+
+    # ---------------------------------------------------------------- identifiers the exporters introduce themselves
+    DECL_SITES = [
+        ("declarator", r'Declarator::Identifier\(\s*(?:ast::)?ScopedIdentifier::trivial\('),
+        ("declarator-from", r'Declarator::from\(\s*Located::none\('),
+        ("local", r'VarDef::one\(\s*Located::none\(\s*String::from\('),
+    ]
+
+    def call_arg(text, open_paren):
+        """text of the (single) argument of the call whose `(` is at open_paren"""
+        j = matching(text, open_paren)
+        return normws(text[open_paren + 1:j]).rstrip(',').strip()
+
+    def classify(arg, consts, what):
+        """('lit', name) | ('const', CONST, name) | ('pattern', prefix) | ('dyn', expr)"""
+        a = arg[1:].strip() if arg.startswith('&') else arg
+        m = re.fullmatch(r'"([A-Za-z_][A-Za-z_0-9]*)"', a)
+        if m:
+            return ('lit', m.group(1))
+        if re.fullmatch(r'[A-Z][A-Z0-9_]*', a):
+            if a not in consts:
+                raise ExtractError(f"{what}: identifier constant {a} is not a `pub const … : &str` of names.rs")
+            return ('const', a, consts[a])
+        m = re.fullmatch(r'format!\(\s*"([A-Za-z_][A-Za-z_0-9]*)\{[a-z_]*\}"\s*(?:,[^)]*)?\)', a)
+        if m:
+            return ('pattern', m.group(1))
+        if a.startswith('"') or a.startswith('format!'):
+            raise ExtractError(f"{what}: cannot read introduced identifier {arg!r}")
+        return ('dyn', a)
+
+    def introduced(texts, consts, what):
+        """fixed names and `format!` prefixes that appear in declaring positions of the given generator sources, plus every
+        names.rs constant the sources mention at all (struct / function names reach their definitions through variables)"""
+        fixed, patterns, ndyn = [], [], 0
+        for fname, text in texts:
+            for kind, pat in DECL_SITES:
+                for m in re.finditer(pat, text):
+                    c = classify(call_arg(text, m.end() - 1), consts, f"{what} {fname} {kind}")
+                    if c[0] == 'lit':
+                        fixed.append(c[1])
+                    elif c[0] == 'const':
+                        fixed.append(c[2])
+                    elif c[0] == 'pattern':
+                        patterns.append(c[1])
+                    else:
+                        ndyn += 1
+            for m in re.finditer(r'format!\(\s*"([A-Za-z_][A-Za-z_0-9]*)\{[a-z_]*\}"', text):
+                # a numbered identifier built in place (`set{}`, `InlineDescriptor{}`, `g_inlineDescriptor{set}`)
+                tail = text[m.end():m.end() + 1]
+                if tail in (',', ')') and len(m.group(1)) >= 3:
+                    patterns.append(m.group(1))
+            for c in consts:
+                if re.search(r'\b' + c + r'\b', text):
+                    fixed.append(consts[c])
+        uniq = lambda xs: sorted(set(xs))
+        return uniq(fixed), uniq(patterns), ndyn
+
+    IMPLICIT_ARM = r'ImplicitFunctionParameter::([A-Za-z]+)(?:\([^)]*\))?\s*=>'
+
+    def implicit_sites(body, consts, what):
+        """per `ImplicitFunctionParameter::X =>` arm of `body`: the arguments of every `ScopedIdentifier::trivial(…)` /
+        `Declarator::from(Located::none(…))` up to the next arm, constants resolved; dynamic ones dropped"""
+        arms = list(re.finditer(IMPLICIT_ARM, body))
+        out = {}
+        for k, m in enumerate(arms):
+            seg = body[m.end():arms[k + 1].start() if k + 1 < len(arms) else len(body)]
+            names = []
+            for t in re.finditer(r'ScopedIdentifier::trivial\(|Declarator::from\(\s*Located::none\(', seg):
+                c = classify(call_arg(seg, t.end() - 1), consts, f"{what} arm {m.group(1)}")
+                if c[0] == 'lit':
+                    names.append(c[1])
+                elif c[0] == 'const':
+                    names.append(c[2])
+            out.setdefault(m.group(1), []).extend(names)
+        return out
+
     @gen("Reserved")
     def gen_reserved():
         hl = T.src("hlsl/src/names.rs")
@@ -82,7 +158,8 @@ def register(gen, T):
         hres, _ = reserved_list(hl, "hlsl")
         mres, mconsts = reserved_list(ms, "msl")
         out = [T.header("Reserved", ["hlsl/src/names.rs", "msl/src/names.rs", "typer/src/typer/types.rs",
-                                     "ir/src/name_generator.rs", "hlsl/src/ast_generate.rs", "msl/src/generator.rs"])]
+                                     "ir/src/name_generator.rs", "hlsl/src/ast_generate.rs", "msl/src/generator.rs",
+                                     "msl/src/generator/pipeline.rs"])]
 
         def lst(name, doc, items):
             out.append(f"/-- {doc} -/\ndef {name} : List String :=\n  [" +
@@ -126,6 +203,61 @@ def register(gen, T):
                        f"def fact_{k} : Bool := {'true' if n == want else 'false'}\n\n")
         order = re.findall(r'name_vec\.push\(NameSymbol::([A-Za-z]+)\(\*?[a-z_]+\)\)', flat)
         lst("pushOrder", "order in which `NameMap::build` pushes symbol kinds into the per-scope vectors", order)
+
+        # --- identifiers the exporters introduce themselves into scopes that hold user-named entities
+        mp = T.src("msl/src/generator/pipeline.rs")
+        hconsts = str_consts(hl)
+        mfix, mpat, mdyn = introduced([("generator.rs", mg), ("generator/pipeline.rs", mp)], mconsts, "msl")
+        hfix, hpat, hdyn = introduced([("ast_generate.rs", hg)], hconsts, "hlsl")
+        lst("mslIntroduced", "fixed identifiers msl/src/generator.rs and generator/pipeline.rs put into declaring positions "
+            "(`Declarator::Identifier(ScopedIdentifier::trivial(X))`, `Declarator::from(Located::none(X))`, "
+            "`VarDef::one(Located::none(String::from(X)))` with X a literal or a names.rs constant) or reach through a names.rs "
+            "constant they mention (struct / wrapper names); generator/intrinsic_helpers.rs is left out: everything it declares "
+            "sits inside `namespace helper` in scopes of its own that hold no user entity", mfix)
+        lst("mslIntroducedPatterns", "`format!` prefixes of numbered identifiers the MSL exporter builds in place", mpat)
+        lst("hlslIntroduced", "the same for hlsl/src/ast_generate.rs", hfix)
+        lst("hlslIntroducedPatterns", "`format!` prefixes of numbered identifiers the HLSL exporter builds in place", hpat)
+        out.append(f"/-- declaring positions of the exporters whose identifier is computed (name map, loops): msl, hlsl -/\n"
+                   f"def introducedDynamicSites : Nat × Nat := ({mdyn}, {hdyn})\n\n")
+        # the implicit parameters: one identifier per variant, the same at the four places that must agree
+        decl = implicit_sites(fn_body(mg, "generate_function_inner"), mconsts, "generate_function_inner")
+        args_ = implicit_sites(fn_body(mg, "append_arguments_for_globals"), mconsts, "append_arguments_for_globals")
+        wrap_ = implicit_sites(fn_body(mp, "generate_pipeline"), mconsts, "generate_pipeline")
+        variants = [v for v in decl if v != "Global"]
+        rows = []
+        for v in variants:
+            names = set(decl.get(v, [])) | set(args_.get(v, [])) | set(wrap_.get(v, []))
+            if len(names) != 1 or not decl.get(v) or not args_.get(v) or not wrap_.get(v):
+                raise ExtractError(f"implicit parameter {v}: declaration {decl.get(v)}, call argument {args_.get(v)}, "
+                                   f"entry wrapper {wrap_.get(v)} do not agree on one identifier")
+            rows.append((v, names.pop()))
+        out.append("/-- `ImplicitFunctionParameter` variants other than `Global` with the identifier that `generate_function_inner` "
+                   "declares, `append_arguments_for_globals` passes and the entry wrapper of `generate_pipeline` declares and "
+                   "passes for them (all sites agree, else the translator refuses) -/\n"
+                   "def mslImplicitParams : List (String × String) :=\n  [" +
+                   ",\n   ".join(f"({lean_str(v)}, {lean_str(n)})" for v, n in rows) + "]\n\n")
+        # which intrinsic asks for which variant, and which identifier the intrinsic itself is printed as
+        asks = re.findall(r'ir::Intrinsic::([A-Za-z]+) => \{ required_globals\.push\(ImplicitFunctionParameter::([A-Za-z]+)\)',
+                          normws(mg))
+        ibody = normws(fn_body(mg, "generate_intrinsic_function"))
+        wave = []
+        for intr, var in asks:
+            m = re.search(r'\b' + intr + r' => Ok\(ast::Expression::Identifier\((?:ast::)?ScopedIdentifier::trivial\(([^)]*?),? ?\)\)\)', ibody)
+            if m:
+                c = classify(m.group(1).strip(), mconsts, f"generate_intrinsic_function {intr}")
+                if c[0] in ('lit', 'const'):
+                    wave.append((intr, var, c[-1]))
+        out.append("/-- intrinsics that `generate_intrinsic_function` prints as a bare identifier and for which the usage loop pushes an "
+                   "implicit parameter: (intrinsic, variant, identifier printed) -/\n"
+                   "def mslImplicitIntrinsics : List (String × String × String) :=\n  [" +
+                   ",\n   ".join(f"({lean_str(a)}, {lean_str(b)}, {lean_str(c)})" for a, b, c in wave) + "]\n\n")
+        sorted_fact = len(re.findall(r'required_globals\.sort\(\);', normws(mg)))
+        enum_m = re.search(r'enum ImplicitFunctionParameter \{(.*?)\n\}', mg, re.S)
+        order = re.findall(r'^\s*([A-Z][A-Za-z]+)\b', re.sub(r'///[^\n]*', '', enum_m.group(1)), re.M) if enum_m else []
+        lst("mslImplicitOrder", "variants of `enum ImplicitFunctionParameter` in declaration order (= derived `Ord`; "
+            "`required_globals.sort()` puts the parameters into this order)", order)
+        out.append(f"/-- `required_globals.sort();` found {sorted_fact} time(s), expected 1 -/\n"
+                   f"def fact_implicitSorted : Bool := {'true' if sorted_fact == 1 else 'false'}\n\n")
         out.append(f"/-- third argument of the `NameMap::build` call in hlsl/src/ast_generate.rs -/\n"
                    f"def hlslIntrinsicsReserved : Bool := {build_call(hg, 'hlsl')}\n\n")
         out.append(f"/-- third argument of the `NameMap::build` call in msl/src/generator.rs -/\n"
